@@ -445,6 +445,32 @@ fn halfway_case() -> impl Strategy<Value = Case> {
             let (digits, scale) = round_sig(&ip, &fp, k, up);
             Case::Float { single: false, lit: render(neg, &digits, scale, &st), halfway: true }
         }),
+        // an exact midpoint whose tie is broken by a digit FAR out: the fraction padded with zeros to a
+        // total of F digits, then a 1 (just above), or the 9-tail of "just below" drawn out to F digits;
+        // F at the sizes where a reader might stop looking (767/768 significant digits, 1074/1075
+        // places, 2^11, 2^12, 2^16) - the verdict still depends on the last digit
+        (prop_oneof![1 => f64_pattern().prop_map(|b| (b, false)), 1 => f32_pattern().prop_map(|b| (b as u64, true)),
+                     2 => (1010u64..1040, any::<u64>()).prop_map(|(e, m)| ((e << 52) | (m & 0x000F_FFFF_FFFF_FFFF), false)),
+                     2 => (117u32..140, any::<u32>()).prop_map(|(e, m)| (((e << 23) | (m & 0x007F_FFFF)) as u64, true))],
+         proptest::sample::select(vec![60usize, 100, 400, 766, 767, 768, 769, 800, 1022, 1023, 1024, 1073, 1074, 1075, 1076, 1100, 2046, 2047, 2048, 2049, 2050, 2100, 4095, 4096, 4097, 8192, 65_535, 65_536, 65_537, 70_000]),
+         any::<bool>(), any::<bool>(), any::<bool>()).prop_map(|((bits, is32), total, above, neg, read_single)| {
+            let (ip, fp) = if is32 { midpoint_f32(bits as u32) } else { midpoint_f64(bits) };
+            let ipl = ip.len();
+            let mut all = format!("{ip}{fp}").into_bytes();
+            if above {
+                while all.len() - ipl < total { all.push(b'0'); }
+                all.push(b'1');
+            } else {
+                if let Some(p) = all.iter().rposition(|c| *c != b'0') {
+                    all[p] -= 1;
+                    for c in all[p + 1..].iter_mut() { *c = b'9'; }
+                }
+                while all.len() - ipl <= total { all.push(b'9'); }
+            }
+            let scale = (all.len() - ipl) as u32;
+            let digits = String::from_utf8(all).unwrap();
+            Case::Float { single: read_single, lit: render(neg, &digits, scale, &Style::plain()), halfway: true }
+        }),
         // an f32 midpoint read as f64 and vice versa (double rounding traps)
         (f32_pattern(), 0u8..3, any::<bool>()).prop_map(|(bits, how, neg)| {
             let (ip, fp) = midpoint_f32(bits);
